@@ -12,7 +12,7 @@ from ..devsim import SimDevice
 ID = "C16"
 LEVEL = "exploration"
 SHARDS = {"quick": 8, "thorough": 16}
-RULE = ("model-based histories: a capability profile (breeze in {breeze-control, legacy away only, legacy breezeless only, legacy "
+RULE = ("model-based histories: optionally the unit hangs up after every answer (FIN or RST, seen by the client's event loop after or in the same pass as the answer; the transport asks eof_received() as asyncio does); a capability profile (breeze in {breeze-control, legacy away only, legacy breezeless only, legacy "
         "both, none}; rate select none/2-level/5-level; iECO, self-clean, vertical/horizontal swing angle present or not) and a "
         "list of up to 25 (quick) / 40 (thorough) operations from {set angle (every member), set rate select (members the profile "
         "supports), breeze_away/mild/breezeless := bool (only where supports_* is true), ieco := bool, start_self_clean, beep := "
@@ -98,6 +98,7 @@ def check_case(case: dict):
         m.cap_pages = [(_caps(profile), b"")]
         m.props = _store(profile)
         dev = SimDevice(loop, version=2, device_id=3, ac=m)
+        dev.hangup = case.get("hangup")      # the unit hangs up after every answer (FIN / RST; seen by the client's loop after or with the answer)
         net.listen("10.0.0.9", 6444, dev)
         ac = AC(ip="10.0.0.9", port=6444, device_id=3)
         await ac.get_capabilities()
@@ -454,7 +455,10 @@ def run(ctx) -> None:
                 n += 1
                 if ctx.mine(n):
                     case = {"profile": prof, "ops": s}
+                    if n % 3 == 0:
+                        case["hangup"] = ["fin", "rst", "fin_same", "rst_same"][(n // 3) % 4]
                     ctx.check(case, lambda c: _run_one(ctx, c))
     ctx.sweep("each setter x profile family scripts", n, True)
-    cases = st.fixed_dictionaries({"profile": profiles(), "ops": ops_strategy(25 if ctx.quick else 40)})
+    cases = st.fixed_dictionaries({"profile": profiles(), "ops": ops_strategy(25 if ctx.quick else 40)},
+                                  optional={"hangup": st.sampled_from(["fin", "rst", "fin_same", "rst_same"])})
     ctx.hyp("histories", cases, lambda c: _run_one(ctx, c), ctx.n(3200, 160000))
